@@ -14,7 +14,9 @@ package main
 // keys, used through `mapHas` / `mapGet` / `mapSet` / `mapDel` and `len` (= the number of entries); `for k, v := range m`
 // is the recursion over that list: the list order of a map PARAMETER stands for the order in which this call's
 // iteration visits the entries, which Go leaves open -- the tie theorems hold for every list, i.e. for every order
-// (see mapLoop for the conditions on the loop body); `func` parameters -> pure Lean functions (a callback
+// (see mapLoop for the conditions on the loop body); ranging over a LOCAL map visits its entries in the order in
+// which the function inserted them -- ONE of the orders Go may choose (the models of such functions make the same
+// choice and their theorems then quantify over every order separately); `func` parameters -> pure Lean functions (a callback
 // has no side effects and does not panic); `strings.Builder` -> the list of bytes written so far.
 //
 // Two modes.  A function is first translated in PURE mode (result type = the Lean type of the Go result).
